@@ -527,6 +527,61 @@ class World:
 
         return hashlib.blake2b(text.encode("utf-8", "surrogatepass"), digest_size=12).digest()
 
+    # -- validated snapshot shortcut -----------------------------------------------------------
+
+    def snapshot(self):
+        """Copy of the mutable containers of an idle, persistence-free world, or None.
+
+        Only a shortcut: restore() is followed by a canonical-key comparison by the caller; if the
+        key differs (state lives somewhere this list does not know) the caller replays instead.
+        """
+        if self.persistence or self.dead is not None or self.timers or self.gw.tasks.queue:
+            return None
+        gw = self.gw
+        ota = gw.tasks.ota
+        try:
+            snap = {
+                "sensors": canon.struct_copy(gw.sensors),
+                "metric": gw.metric,
+                "can_log": gw.can_log,
+                "t_can_log": gw.tasks.transport.can_log,
+                "ota": {name: canon.struct_copy(getattr(ota, name)) for name in ("firmware", "requested", "started", "unstarted")},
+                "conn_closed": self.conn.closed if self.conn is not None else None,
+                "all_subs": list(self.all_subs),
+                "buffer": bytes(getattr(gw.tasks.transport.protocol, "buffer", b"") or b"") if self.conn is not None else None,
+            }
+        except canon.CannotCopy:
+            return None
+        return snap
+
+    def restore(self, snap):
+        global CURRENT
+        CURRENT = self
+        gw = self.gw
+        ota = gw.tasks.ota
+        gw.sensors.clear()
+        gw.sensors.update(canon.struct_copy(snap["sensors"]))
+        gw.metric = snap["metric"]
+        gw.can_log = snap["can_log"]
+        gw.tasks.transport.can_log = snap["t_can_log"]
+        gw.tasks.queue.clear()
+        gw.tasks._stop_event.clear()
+        for name, val in snap["ota"].items():
+            store = getattr(ota, name)
+            store.clear()
+            store.update(canon.struct_copy(val))
+        if self.conn is not None:
+            self.conn.closed = snap["conn_closed"]
+            proto = gw.tasks.transport.protocol
+            if proto is not None and snap["buffer"] is not None and hasattr(proto, "buffer"):
+                del proto.buffer[:]
+                proto.buffer.extend(snap["buffer"])
+        self.all_subs[:] = snap["all_subs"]
+        self.dead = None
+        self.threads = []
+        self.epoch = self.cfg.get("epoch", 1_700_000_000)
+        self.utc_offset = self.cfg.get("utc_offset", 3 * 3600)
+
     def tree(self, transient=False):
         return canon.project_tree(self.gw.sensors, transient)
 
